@@ -128,7 +128,7 @@ structure Outcome where
 /-- `with op.batch_alter_table(t, recreate=…, copy_from=…) as b: ops` on a connection whose database is `db` -/
 def runBatch (ct : ConvTable) (tableName : String) (reflected always : Bool) (ops : List BatchOp)
     (fault : Option Nat) (commitOnError : Bool) (db : Db) (mode : ConnMode := .pysqliteLegacy)
-    (transactionalDdl : Bool := false) : Outcome :=
+    (transactionalDdl : Bool := false) (copyFrom : Option Schema := none) : Outcome :=
   let ops := expandOps tableName ops
   let c0 := Conn.start mode db
   if queueError always [] ops then { recreated := false, trace := [], err := some .commandError, final := db }
@@ -136,10 +136,14 @@ def runBatch (ct : ConvTable) (tableName : String) (reflected always : Bool) (op
     let x := execAll ct fault (Run.start c0) (directStmts ops)
     { recreated := false, trace := x.1.trace, err := x.2, final := (finish commitOnError x).committed }
   else
-    match db.orig with
+    -- `copy_from=` a Table object (no reflection, the table need not exist), else reflect the table under the original name
+    let src : Option Schema := match copyFrom with
+      | some s => some s
+      | none => db.orig.map (·.schema)
+    match src with
     | none => { recreated := true, trace := [], err := some .noSuchTable, final := db }
-    | some t =>
-      match ((State.init tableName reflected t.schema).applyOps ops).bind State.reorder with
+    | some schema =>
+      match ((State.init tableName reflected schema).applyOps ops).bind State.reorder with
       | .error e => { recreated := true, trace := [], err := some e, final := db }
       | .ok st =>
         if !distinct (st.columns.map (·.2.name)) then
